@@ -59,17 +59,19 @@ NormPlugins(a) == IF a.t = "m" THEN SeqV(PluginItems(a))
                   ELSE SeqV(Flatten([i \in 1..Len(a.e) |-> PluginItems(a.e[i])]))
 
 (* ---------------- matrix ---------------- *)
-StrSeq(a) == SeqV([i \in 1..Len(a.e) |-> StrOf(a.e[i])])
+StrSeq(a) == IF a.t # "q" THEN a ELSE SeqV([i \in 1..Len(a.e) |-> StrOf(a.e[i])])      \* (a null list stays null: probe F16)
 NormWith(a) == IF a.t = "m"
                THEN (IF Len(a.kv) = 1 /\ a.kv[1][1] = "" THEN StrOf(a.kv[1][2]) ELSE StrValues(a))
                ELSE StrOf(a)
-NormAdj(a) == Map([i \in 1..Len(a.kv) |-> IF a.kv[i][1] = "with" THEN <<"with", NormWith(a.kv[i][2])>> ELSE a.kv[i]])
+\* (an adjustment written without `with` still shows an empty one: the field has no omitempty)
+NormAdj(a) == Map([i \in 1..Len(a.kv) |-> IF a.kv[i][1] = "with" THEN <<"with", NormWith(a.kv[i][2])>> ELSE a.kv[i]]
+                  \o (IF MHas(a, "with") THEN <<>> ELSE << <<"with", Map(<<>>)>> >>))
 NormSetup(a) == IF a.t = "q" THEN StrSeq(a)
                 ELSE IF Len(a.kv) = 1 /\ a.kv[1][1] = "" /\ Len(a.kv[1][2].e) > 0 THEN StrSeq(a.kv[1][2])
                 ELSE Map([i \in 1..Len(a.kv) |-> <<a.kv[i][1], StrSeq(a.kv[i][2])>>])
 NormMatrix(a) ==
     IF a.t = "q" THEN StrSeq(a)                                                        \* matrix: [a, b]
-    ELSE LET setup == NormSetup(MGet(a, "setup"))
+    ELSE LET setup == IF MHas(a, "setup") THEN NormSetup(MGet(a, "setup")) ELSE Map(<<>>)   \* no setup written: an empty one is shown (never null)
              adjs == IF MHas(a, "adjustments") /\ MGet(a, "adjustments").t = "q" THEN MGet(a, "adjustments").e ELSE <<>>
              rest == MDrop(a, {"setup", "adjustments"})
          IN IF setup.t = "q" /\ Len(adjs) = 0 /\ Len(rest) = 0 THEN setup               \* simple: reduced to the list
